@@ -337,6 +337,7 @@ func c02(r *Report) {
 				}
 			}
 		}
+		r.dynamicCallerRule(rt, "upstream contact outside the exchange function")
 		// roundTrip is called from the exchange function only
 		for _, c := range w.staticCallers(rt) {
 			r.Decide("callgraph", "caller of roundTrip: "+site(c.Parent(), c), c.Parent() == handle, "called from the exchange function", "roundTrip called from an unexpected function", c.Pos())
